@@ -118,12 +118,35 @@ NullableCases(tier) ==
         [id |-> i, defs |-> <<>>, cmds |-> <<FindAllCmd(S[i])>>, sigma |-> <<ba, sp, nl>>, lo |-> 1,
          hi |-> IF tier = "quick" THEN 3 ELSE 4]]
 
+ClassTableCases(base) ==
+  LET S == SetToSeq(C01_ClassBodies)
+  IN [i \in 1..Len(S) |-> MkCase(base + i, <<>>, <<FindAllCmd(S[i])>>, BoundaryBytes, 2)]
+
+(* replace commands under amount clauses: built-ins of the SAME match         *)
+ReplaceAmountCases(tier) ==
+  LET B == SetToSeq({<<Cap("x", Cls("any"))>>, <<Lab>>, <<Loop(1, -1, FALSE, La)>>})
+      W == SetToSeq({<<WName("matchNumber"), WStr(<<58>>), WName("value")>>, <<WName("startOffset"), WName("tnum")>>,
+                     <<WName("x"), WName("endOffset"), WName("columnNumber")>>, <<WName("tdup"), WName("lineNumber")>>})
+      A == SetToSeq({[k |-> "skip", s |-> 1], [k |-> "skip", s |-> 2], [k |-> "skiptake", s |-> 1, t |-> 2], [k |-> "last", n |-> 2],
+                     [k |-> "last", n |-> 1], [k |-> "top", n |-> 2], [k |-> "take", n |-> 1]})
+      n == Len(B) * Len(W) * Len(A)
+  IN [i \in 1..n |->
+        LET bi == ((i - 1) % Len(B)) + 1
+            wi == (((i - 1) \div Len(B)) % Len(W)) + 1
+            ai == ((i - 1) \div (Len(B) * Len(W))) + 1
+        IN [id |-> 100000 + i, defs |-> <<>>, trans |-> C05_Trans,
+            cmds |-> <<[kind |-> "replace", amt |-> A[ai], body |-> B[bi], with |-> W[wi]]>>,
+            sigma |-> <<ba, bb, nl>>, lo |-> 1, hi |-> IF tier = "quick" THEN 4 ELSE 5]]
+
 CasesOf(fam, tier) ==
   CASE fam = "C01"  -> LET A == BodySeqCases(C01_Bodies(tier), tier)
-                       IN [i \in 1..Len(A) |-> WithReplace(A[i], 7)] \o GlobalSeqCases(C01_GlobalCases, tier, Len(A))
+                           Gc == GlobalSeqCases(C01_GlobalCases, tier, Len(A))
+                       IN [i \in 1..Len(A) |-> WithReplace(A[i], 7)] \o Gc \o ClassTableCases(Len(A) + Len(Gc))
     [] fam = "C02"  -> BodySeqCases(C02_Bodies, tier)
+    [] fam = "C03N" -> BodySeqCases(C03_NamedBodies, tier)
+    [] fam = "C02N" -> BodySeqCases(C03_NamedBodies, tier)
     [] fam = "C04"  -> AmountCases(C04_BodiesQ, tier)
-    [] fam = "C05"  -> ReplaceCases(tier)
+    [] fam = "C05"  -> ReplaceCases(tier) \o ReplaceAmountCases(tier)
     [] fam = "C06"  -> FileCases(tier)
     [] fam = "C13"  -> TransparentCases(tier)
     [] fam = "C09"  -> CrashCases(tier)
